@@ -314,7 +314,7 @@ Definition cli_evaluate_model (Scr Th Pr PrT Ob Nm Ev : Type) (L : ev_lib Scr Th
    Error tags: 20 AssertionError (nargs), 21 argparse.ArgumentError ("could not parse argument ... as k=v format"),
    22 ValueError of str_to_bool, 23 ValueError "empty separator", 24 ValueError of unpacking a list into two names,
    25 KeyError (a KEY that is not a required __init__ argument), 26 TypeError ('NoneType' object is not callable: a
-   required argument without annotation), 29 TypeError "The given object is not a class.", 30 NameError of
+   required argument without annotation; the empty marker takes no arguments), 29 TypeError "The given object is not a class.", 30 NameError of
    create_instance, 31 ValueError "is not a subclass of"; 98 IndexError, 99 TypeError on None (Lib/PyRt.v). *)
 Definition str : Type := list Z.
 Fixpoint str_eqb (a b : str) : bool :=
@@ -350,11 +350,12 @@ Definition str_split (s sep : str) (maxsplit : Z) : result (list str) :=
 
 (* ---------- annotations, converters, parameter values ---------- *)
 (* the annotation object of an __init__ parameter, as far as cast_dict_to_type can tell them apart: the four builtin types
-   of its table, None (no annotation), any other object (numbered) *)
-Inductive ann : Type := ABool | AInt | AFloat | AStr | ANone | AOther (id : Z).
+   of its table, None (no annotation), the marker inspect.Parameter.empty (which get_required_init_args_with_annotations
+   replaces by None), any other object (numbered) *)
+Inductive ann : Type := ABool | AInt | AFloat | AStr | ANone | AEmpty | AOther (id : Z).      (* AEmpty: inspect.Parameter.empty *)
 Definition ann_eqb (a b : ann) : bool :=
   match a, b with
-  | ABool, ABool | AInt, AInt | AFloat, AFloat | AStr, AStr | ANone, ANone => true
+  | ABool, ABool | AInt, AInt | AFloat, AFloat | AStr, AStr | ANone, ANone | AEmpty, AEmpty => true
   | AOther i, AOther j => i =? j
   | _, _ => false
   end.
@@ -385,6 +386,7 @@ Definition call_callable (F O : Type) (P : pyprims F O) (stb : str -> result boo
   | CType AFloat => dor f <- p_float P s; Ok (VFloat f)
   | CType AStr => Ok (VStr s)
   | CType ANone => Err 26
+  | CType AEmpty => Err 26
   | CType (AOther n) => dor o <- p_call_other P n s; Ok (VOther o)
   end.
 
@@ -608,3 +610,69 @@ Definition cli_prepare_cmd (Cls F O Scr Pl Ig Pg Ps : Type) (I : introspect Cls)
                             (instantiate construct_pg (po_cls (pr_pg a)) (po_params (pr_pg a)))
                             (instantiate construct_ps (po_cls (pr_ps a)) (po_params (pr_ps a))))
               mix (pr_plain a).
+
+(* ---------- introspection.py itself, over the importlib / pkgutil / inspect primitives ----------
+   Mod = module objects, Obj = any Python object a module attribute may hold.  pkgutil.walk_packages is the finite list of
+   the module names it yields (its laziness, and an exception from importing a sub-package while walking, are not
+   represented); importlib.import_module may raise (any tag). *)
+Record sigparam := mk_sigparam {
+  sp_no_default : bool;                          (* param.default == inspect.Parameter.empty *)
+  sp_annotation : ann }.                         (* param.annotation (AEmpty when there is none) *)
+Record pyworld (Mod Obj : Type) := mk_pyworld {
+  w_import : str -> result Mod;                  (* importlib.import_module(name) *)
+  w_walk : Mod -> str -> list str;               (* [name for _, name, _ in pkgutil.walk_packages(pkg.__path__, prefix + ".")] *)
+  w_getattr : Mod -> str -> option Obj;          (* getattr(module, name, None) *)
+  w_truthy : Obj -> bool;                        (* bool(o) *)
+  w_issubclass : Obj -> base_class -> result bool;      (* issubclass(o, base): TypeError when o is not a class *)
+  w_isclass : Obj -> bool;                       (* inspect.isclass(o) *)
+  w_signature : Obj -> result (list (str * sigparam)) }.   (* inspect.signature(o.__init__).parameters, in signature order *)
+Definition s_self : str := [115; 101; 108; 102].
+Definition opt_isclass (Mod Obj : Type) (W : pyworld Mod Obj) (c : option Obj) : bool :=
+  match c with Some o => w_isclass W o | None => false end.
+
+(* get_class: the modules of the package in walk order; the first truthy attribute of that name decides (ValueError 31 when
+   it is not a subclass of the base class); None when no module has one *)
+Fixpoint find_class (Mod Obj : Type) (W : pyworld Mod Obj) (name : str) (base : base_class) (mods : list str)
+  : result (option Obj) :=
+  match mods with
+  | [] => Ok None
+  | m :: r =>
+      dor md <- w_import W m;
+      match w_getattr W md name with
+      | Some o =>
+          if w_truthy W o
+          then dor b <- w_issubclass W o base; if b then Ok (Some o) else Err 31
+          else find_class W name base r
+      | None => find_class W name base r
+      end
+  end.
+Definition get_class (Mod Obj : Type) (W : pyworld Mod Obj) (package_name class_name : str) (base : base_class)
+  : result (option Obj) :=
+  dor p <- w_import W package_name; find_class W class_name base (w_walk W p package_name).
+
+(* create_instance: NameError (30) when nothing (or something falsy) was found *)
+Definition create_instance (Mod Obj V Inst : Type) (W : pyworld Mod Obj) (construct : Obj -> V -> result Inst)
+  (package_name class_name : str) (base : base_class) (kwargs : V) : result Inst :=
+  dor c <- get_class W package_name class_name base;
+  match c with
+  | Some o => if w_truthy W o then construct o kwargs else Err 30
+  | None => Err 30
+  end.
+
+(* get_required_init_args_with_annotations: the parameters other than "self" that have no default, in signature order,
+   each with its annotation, None standing for "no annotation" *)
+Definition required_step (d : list (str * ann)) (np : str * sigparam) : list (str * ann) :=
+  if str_eqb (fst np) s_self then d
+  else if sp_no_default (snd np)
+       then kdict_set str_eqb d (fst np)
+                      (if negb (ann_eqb (sp_annotation (snd np)) AEmpty) then sp_annotation (snd np) else ANone)
+       else d.
+Definition required_args (Mod Obj : Type) (W : pyworld Mod Obj) (c : option Obj) : result (list (str * ann)) :=
+  match c with
+  | Some o => if w_isclass W o then dor ps <- w_signature W o; Ok (fold_left required_step ps []) else Err 29
+  | None => Err 29
+  end.
+
+(* the introspection record the get_args() models take, made of the functions above *)
+Definition introspect_of (Mod Obj : Type) (W : pyworld Mod Obj) : introspect Obj :=
+  mk_introspect (get_class W) (required_args W).
